@@ -948,6 +948,27 @@ def enumerate_cases(tier, rng):
         d["reactions"][0]["products"][0].update(id="sr", stoichiometry=3.0),
         d["reactions"][1].update(math=["times", "c", "k0", "B", "sr"])))
 
+    def hosu_doc():
+        d = base_doc()
+        for sp_ in d["species"]:
+            sp_["amount"] = sp_.pop("conc") * 2.5
+            sp_["hosu"] = True
+        d["reactions"][0]["math"] = ["times", "k", "A"]
+        d["reactions"][1]["math"] = ["divide", ["times", "k0", "B"], ["plus", "thr", "B"]]
+        return d
+
+    d = hosu_doc()
+    d["reactions"][0]["products"][0].update(id="sr", stoichiometry=None, constant=False)
+    d["rules"] = [{"variable": "sr", "math": ["plus", "k0", "A"]}]
+    add("stoichiometry:rule-defined:species-in-substance-units", d)
+    d = hosu_doc()
+    d["reactions"][0]["reactants"][0].update(id="sr", stoichiometry=None, constant=False)
+    d["rules"] = [{"variable": "sr", "math": ["plus", "k0", "B"]}]
+    add("stoichiometry:rule-defined-reactant:species-in-substance-units", d)
+    d = hosu_doc()
+    d["reactions"][0]["products"][0].update(id="sr", stoichiometry=2.5, constant=True)
+    add("stoichiometry:named-constant:species-in-substance-units", d)
+
     # F5 initial assignments
     def ia(cls, ias, f=None):
         d = base_doc()
